@@ -67,4 +67,18 @@ Definition dispatch (d : disc) (text : jv -> option string) (st : ustate) : opti
               end
   | None => None
   end.
+
+(** * Unions with additionalProperties (union-and-additional-properties.tmpl).  UnmarshalJSON decodes every key of the
+    document that is no fixed property into a variable of the additional type.  json.Unmarshal into a variable that
+    already holds a value does not start from scratch: members of an object that the new text does not mention keep
+    their old values ([decode_into] = overlay).  The template declares the variable INSIDE the loop over the keys
+    ([decode_fresh]); [decode_shared] is the loop with the variable hoisted out of it. *)
+Definition decode_into (var : jobj) (text : jobj) : jobj := overlay var text.
+Definition decode_fresh (residual : list (string * jobj)) : list (string * jobj) :=
+  map (fun kv => (fst kv, decode_into [] (snd kv))) residual.
+Fixpoint decode_shared (var : jobj) (residual : list (string * jobj)) : list (string * jobj) :=
+  match residual with
+  | [] => []
+  | kv :: r => let var' := decode_into var (snd kv) in (fst kv, var') :: decode_shared var' r
+  end.
 End Union.
